@@ -344,6 +344,32 @@ def m_index_range_open(ex, callee, args):
     return m_index_range(ex, callee, [args[0], full])
 
 
+@model(r'^core::str::<impl str>::(find|rfind)::<char>$')
+def m_str_find_char(ex, callee, args):
+    """str::find(char) / rfind(char) -> Option<usize>: the byte offset of the first (last) occurrence; forks on it"""
+    s = as_str(args[0])
+    c = deref_all(args[1])
+    if not isinstance(c.v, int) or c.v >= 0x80:
+        raise Unsupported('str::find with a non-ASCII or symbolic char')
+    rev = 'rfind' in callee
+    if isinstance(s, (bytes, bytearray)):
+        j = (bytes(s).rfind if rev else bytes(s).find)(bytes([c.v]))
+        return some(mk_int(j, 'usize')) if j >= 0 else none()
+    bs, ln, cap = S.parts(s)
+    order = list(range(cap - 1, -1, -1)) if rev else list(range(cap))
+    conds, prev = [], True
+    for j in order:
+        inl = (j < ln) if isinstance(ln, int) else z3.UGT(ln, z3.BitVecVal(j, 64))
+        hit = b_and(inl, S._eqb(bs[j], c.v))
+        conds.append(b_and(prev, hit))
+        prev = b_and(prev, b_not(hit))
+    conds.append(prev)
+    k = ex.decide(conds)
+    if k == len(conds) - 1:
+        return none()
+    return some(mk_int(order[k], 'usize'))
+
+
 # ----------------------------------------------------------------------
 # trim_matches / trim_start_matches / trim_end_matches with a closure or a char
 
